@@ -306,11 +306,13 @@ def canon(st):
 
 def job(arg):
     first, depth = arg
+    prefix = first if isinstance(first[0], tuple) else (first,)      # one operation, or a tuple of operations
+    first = prefix[0]
     res = Result()
-    name = "S-RD-first=" + "_".join(str(x) for x in first)
+    name = "S-RD-first=" + "+".join("_".join(str(x) for x in op) for op in prefix)
 
     def build2(hist):
-        return build((first,) + tuple(hist))
+        return build(tuple(prefix) + tuple(hist))
 
     def events(st):
         st.sw.dispose()
@@ -319,7 +321,7 @@ def job(arg):
     def check(hist, st):
         out = []
         for v in st.last:
-            v["case"] = core.jsonable({"hist": [list(first)] + [list(e) for e in hist]})
+            v["case"] = core.jsonable({"hist": [list(p_) for p_ in prefix] + [list(e) for e in hist]})
             v["scenario"] = name
             out.append(v)
         res.traces += 1
@@ -328,10 +330,10 @@ def job(arg):
         return out
     st0 = build2(())
     for v in st0.last:
-        v["case"] = core.jsonable({"hist": [list(first)]})
+        v["case"] = core.jsonable({"hist": [list(p_) for p_ in prefix]})
         res.violate(v)
     st0.sw.dispose()
-    bfs((), build2, events, canon, check, depth - 1, res, name=name)
+    bfs((), build2, events, canon, check, depth - len(prefix), res, name=name)
     res.sample({"history": [list(first), list(OPS[5]), list(OPS[23]), list(OPS[11])]})
     return res
 
@@ -341,8 +343,8 @@ def run(tier, seed, jobs):
     firsts = [op for op in OPS if op[0] in ("reg", "badreg")]
     work = [(op, depth) for op in firsts]
     if tier == "quick":
-        # one level deeper from the two most productive starts
-        work += [(OPS[0], 4), (OPS[2], 4)]
+        # one level deeper from the two most productive starts (split by the second operation to use all cores)
+        work += [((OPS[0], op2), 4) for op2 in OPS] + [((OPS[2], op2), 4) for op2 in OPS]
     return core.prun(job, work, jobs)
 
 
